@@ -27,7 +27,7 @@ static int sample_left = 6;
 
 /* statistics */
 static uint64_t st_read, st_write, st_connect, st_accept, st_cancel,
-    st_eof, st_err, st_bytes, st_stall, st_lists, st_timeouts, st_rw_both;
+    st_eof, st_err, st_bytes, st_stall, st_lists, st_timeouts, st_rw_both, st_zero_timeo;
 
 static void
 viol(const char * key, const char * fmt, ...)
@@ -633,6 +633,14 @@ scenario_connect(void)
 	nconn = 0;
 	if (use_timeo)
 		timeo_us = 5000 + vh_below(&R, 2000000);
+	/*
+	 * A timeout of exactly zero: every address gets one chance (an attempt
+	 * that completes at once still wins), anything slower is abandoned.
+	 */
+	if (use_timeo && vh_chance(&R, 1, 8)) {
+		timeo_us = 0;
+		st_zero_timeo++;
+	}
 	for (i = 0; i < naddr; i++) {
 		beh[i] = (int)vh_below(&R, B_NBEHAV);
 		if (beh[i] == B_SOCKFAIL && i == 0)
@@ -640,7 +648,10 @@ scenario_connect(void)
 		if (beh[i] == B_TIMEOUT && !use_timeo)
 			beh[i] = B_FAIL_ASYNC;
 		/* Completion well before, or (treated as never) well after, the timeout. */
-		delay_us[i] = 1 + vh_below(&R, use_timeo ? timeo_us - 3000 : 3000000);
+		if (use_timeo && timeo_us == 0)
+			delay_us[i] = 3000 + vh_below(&R, 1000000);
+		else
+			delay_us[i] = 1 + vh_below(&R, use_timeo ? timeo_us - 3000 : 3000000);
 		if (use_timeo && vh_chance(&R, 1, 5) &&
 		    (beh[i] == B_OK_ASYNC || beh[i] == B_FAIL_ASYNC)) {
 			delay_us[i] = timeo_us + 3000 + vh_below(&R, 1000000);
@@ -693,7 +704,7 @@ scenario_connect(void)
 	if (cancel) {
 		int dummy = 0;
 
-		run_until(&q.done, 1 + vh_below(&R, use_timeo ? timeo_us * 2 : 100000));
+		run_until(&q.done, 1 + vh_below(&R, (use_timeo && timeo_us) ? timeo_us * 2 : 100000));
 		if (!q.done) {
 			st_cancel++;
 			network_connect_cancel(c);
@@ -961,6 +972,7 @@ main(int argc, char ** argv)
 	printf("STAT polls %llu\nSTAT recv_calls %llu\nSTAT send_calls %llu\nSTAT connect_calls %llu\nSTAT accept_calls %llu\n",
 	    (unsigned long long)simk_npoll, (unsigned long long)simk_nrecv, (unsigned long long)simk_nsend,
 	    (unsigned long long)simk_nconnect, (unsigned long long)simk_naccept);
-	printf("STAT cases_with_descriptor_0_free %llu\n", (unsigned long long)st_fd0_free);
+	printf("STAT cases_with_descriptor_0_free %llu\nSTAT connect_lists_with_zero_timeout %llu\n",
+	    (unsigned long long)st_fd0_free, (unsigned long long)st_zero_timeo);
 	return (0);
 }
